@@ -158,7 +158,7 @@ func genCopyCase(e *core.Env, o copyGenOpts) *copyCase {
 		// images with external layers are only generated for registry sources
 		g.NoExt = true
 	}
-	c.gr = g.Graph(gen.Opts{})
+	c.gr = g.Graph(gen.Opts{Loops: true})
 	switch pair {
 	case 0:
 		c.pairing = "two-registries"
